@@ -338,7 +338,7 @@ class ThreadSched:
             costs.append(self.env_cost)
         if len(names) == 1:
             return
-        c = self._decide("p", names, costs)
+        c = self._decide("p" if kind != "line" else "p@%s:%d" % obj, names, costs)
         if c == 0:
             return
         a = alts[c]
